@@ -805,7 +805,8 @@ func (cfg *Config) wordFields(wps []syntax.WordPart) ([][]fieldPart, error) {
 			if err != nil {
 				return nil, err
 			}
-			curField = append(curField, fieldPart{val: strconv.Itoa(n)})
+			// Like any other unquoted expansion, the result is split.
+			splitAdd(strconv.Itoa(n))
 		case *syntax.ProcSubst:
 			path, err := cfg.ProcSubst(wp)
 			if err != nil {
